@@ -4,10 +4,7 @@ from pyvc import tracelib as T
 from . import c08_creator  # noqa
 C = 'mapproxy.cache.tile:'
 
-cls(C + 'TileManager', fields=dict(grid='opaque', cache='opaque', locker='opaque', meta_grid='opaque', sources='opaque',
-                                   _expire_timestamp='opt[real]', _refresh_before='opaque', dimensions='opaque',
-                                   identifier='opaque', minimize_meta_requests='bool', concurrent_tile_creators='int',
-                                   rescale_tiles='int'))
+cls(C + 'TileManager', fields=dict(c08_creator.TILE_MANAGER_FIELDS))
 
 OF = {'coord': 'opt[tuple[int,int,int]]', 'timestamp': 'real', 'size': 'int'}
 
